@@ -686,7 +686,8 @@ def build_cases(tier, seed):
             add('F', form=mkform(sym, b, cs, hv), trunc=(len(cs) <= 1 or not quick))
     # ---- H: boundary parameter extraction / validation ---------------------------------------------
     for n in (0, 1, 2, 69, 70, 71, 72):
-        for quoting in ('plain', 'quoted', 'quoted-trailing-space', 'param-first', 'upper-case-name'):
+        for quoting in ('plain', 'quoted', 'quoted-trailing-space', 'param-first', 'upper-case-name', 'quoted-leading-space',
+                        'quoted-inner-space'):
             add('H', blen=n, quoting=quoting)
     # big bodies: the delimiter sweeps across the readers' default chunk edges
     for edge in (8192, 32768):
@@ -1078,10 +1079,16 @@ def case_G(case, rep, sym=None):
 def case_H(case, rep):
     n, q = case['blen'], case['quoting']
     b = (b'----' + b'Zq9' * 30)[:n]
+    if q == 'quoted-leading-space' and n >= 2:
+        b = b' ' + b[1:]              # RFC 2046: a space is a legal boundary character anywhere but last
+    elif q == 'quoted-inner-space' and n >= 3:
+        b = b[:1] + b' ' + b[2:]
     bs = b.decode()
     value = {'plain': 'multipart/form-data; boundary=%s' % bs,
              'quoted': 'multipart/form-data; boundary="%s"' % bs,
              'quoted-trailing-space': 'multipart/form-data; boundary="%s  "' % bs,
+             'quoted-leading-space': 'multipart/form-data; boundary="%s"' % bs,
+             'quoted-inner-space': 'multipart/form-data; boundary="%s"' % bs,
              'param-first': 'multipart/form-data; charset=utf-8; boundary=%s' % bs,
              'upper-case-name': 'multipart/form-data; BOUNDARY=%s' % bs}[q]
     parts = [('n0', None, None, None, b'-' + b)]
